@@ -5,31 +5,31 @@ import json, subprocess, os
 ENV = "GOFLAGS=-mod=mod GOPROXY=off GOSUMDB=off GOTOOLCHAIN=local"
 
 CHECKS = {
- "C01": ("exploration", "honest issuance of types 1,2,3,5 with every message crossing the wire as bytes (also into long-lived issuer-side request objects), over keys x challenge lengths (0..65535) x nonces x batch sizes x origin-name lengths x fixed/random blinds; plus long-lived sessions (one client, issuer, request object and receive buffer for 10-16 related runs, argument buffers refilled in place), honest batches / consecutive runs whose blinded elements agree in 32 leading or trailing bits (fixture) or are equal, and type-3 responses re-encrypted for every / many values of the first two bytes of the random response nonce; validity decided by circl FullEvaluate / crypto/rsa.VerifyPSS and a byte-exact token layout assembled by the harness",
+ "C01": ("exploration", "honest issuance of types 1,2,3,5 with every message crossing the wire as bytes (also into long-lived issuer-side request objects), over keys x challenge lengths (0..65535) x nonces x batch sizes x origin-name lengths x fixed/random blinds; plus long-lived sessions (one client, issuer, request object and receive buffer for 10-16 related runs, argument buffers refilled in place), honest batches / consecutive runs whose blinded elements agree in 32 leading or trailing bits (fixture) or are equal, and type-3 responses re-encrypted for every / many values of the first two bytes of the random response nonce, type-5 batch sizes for every value of the first byte of the list length prefix, entropy faults (permanent, and transient at the k-th read) during the first use of fresh issuers and clients followed by honest runs on the same objects; validity decided by circl FullEvaluate / crypto/rsa.VerifyPSS and a byte-exact token layout assembled by the harness",
          "trusted: circl oprf/blindrsa, go-hpke, crypto/rsa; client-internal randomness covered by repetition and the WithBlind entry points",
          "runtime monitoring: independent-verifier oracle over generated honest executions"),
  "C02": ("exploration", "FinalizeToken(s) on honest, corrupted and foreign responses: every single-bit flip of each honest response (exhaustive), full state x response cross-pairing, type-5 drops/duplications/swaps/extra elements/foreign proofs (also as honest evaluations with valid proofs, by a malicious key holder, of shortened/permuted/duplicated/extended request lists, and with an undecodable element plus a proof forged with the verifier's own arithmetic), type-3 responses that decrypt but carry a wrong blind signature, requests created with nonces / key ids of other lengths than 32, interleaved lifecycles of up to 4 outstanding requests, odd salt lengths, one client object reused across keys with colliding truncated ids; universal oracle (nil error => token valid under the request's key and bound to the request) plus the rejection list of the statement",
          "trusted: circl, crypto/rsa; per-class counters (decode / proof / count / AEAD / RSA) must all be observed",
          "runtime monitoring: universal post-condition oracle + must-reject corpus (exhaustive bit flips)"),
- "C03": ("exploration", "every byte-consuming entry point under structure-aware hostile inputs (truncations, extensions, every length/count field and varint form up to 2^62-1, type tags, splices, well-framed hostile content, HPKE-sealed hostile inner requests, correctly encrypted type-3 responses with hostile plaintext (every short length, over-long, >= N), hostile key/scalar arguments); inputs malformed by construction must be refused, several hundred refusals in a row and every hostile family are followed by the honest input, which must still be served; each call journalled before it is made, run in child processes under RLIMIT_AS with a CPU-time stall watchdog, a blocked-call detector (no CPU time and no runnable thread for 90 s: goroutine dump, violation if a goroutine waits inside pat-go) and two allocation bounds measured exactly (global, and per target against the target's own honest cost; decode-only targets and batches of 600..2047 valid elements make super-linear work visible); followed by a coverage-guided stage (Go native fuzzing over the same entry points and oracle, 40 000 / 4 000 000 executions)",
+ "C03": ("exploration", "every byte-consuming entry point under structure-aware hostile inputs (truncations, extensions, every length/count field and varint form up to 2^62-1, type tags, splices, well-framed hostile content, HPKE-sealed hostile inner requests, correctly encrypted type-3 responses with hostile plaintext (every short length, over-long, >= N), hostile key/scalar arguments); inputs malformed by construction must be refused, several hundred refusals in a row and every hostile family are followed by the honest input, which must still be served; DER elements nested 12 / 24 million deep for the DER decoders; each call journalled before it is made, run in child processes under RLIMIT_AS with a CPU-time stall watchdog, a blocked-call detector (no CPU time and no runnable thread for 90 s: goroutine dump, violation if a goroutine waits inside pat-go) and two allocation bounds measured exactly (global, and per target against the target's own honest cost; decode-only targets and batches of 600..2047 valid elements make super-linear work visible); followed by a coverage-guided stage (Go native fuzzing over the same entry points and oracle, 40 000 / 4 000 000 executions)",
          "trusted: Go runtime metrics (/gc/heap/allocs:bytes); struct-level hostility limited to shapes the wire decoders can produce",
          "runtime monitoring: crash/allocation/termination monitor with journalled child-process workers + coverage-guided fuzzing stage"),
- "C04": ("exploration", "value round trips, accepted-bytes oracle (canonical re-encoding no longer, same value, equals Marshal also on reused objects) and type separation (every 16-bit tag x body x decoder, exhaustive) against the harness's own encoders/parsers; decode-again after the caller edited the first result, receive buffers refilled in place; Rust interop vectors as independent encodings; followed by a coverage-guided stage (Go native fuzzing: arbitrary bytes to every decoder, accepted-bytes oracle on every acceptance, 40 000 / 4 000 000 executions)",
+ "C04": ("exploration", "value round trips, accepted-bytes oracle (canonical re-encoding no longer, same value, equals Marshal also on reused objects) and type separation (every 16-bit tag x body x decoder, exhaustive) against the harness's own encoders/parsers; decode-again after the caller edited the first result, receive buffers refilled in place, the same object decoding its refilled buffer and a retransmission after the buffer was reused, values whose last bytes are line ends / blanks / NULs; Rust interop vectors as independent encodings; followed by a coverage-guided stage (Go native fuzzing: arbitrary bytes to every decoder, accepted-bytes oracle on every acceptance, 40 000 / 4 000 000 executions)",
          "trusted: the reference encoders in props/c04.go and props/t3wire.go (written from the TLS-presentation structs)",
          "runtime monitoring: reference-codec differential oracle + coverage-guided fuzzing stage"),
- "C05": ("exploration", "generic batch issuance over the wire: every request-kind sequence of length 1..3/1..4 over 8 kinds under 5 issuer configurations (two with an always-refusing issuer sharing type and truncated key id) under 8 issuer configurations (also none, the same issuer twice, issuers that return bytes with their error), plus every unserved truncated key id, seeded long and large (63..128) batches, over the wire and handed over in memory, judged by an executable model (present iff a configured issuer of that type and truncated key id evaluates the request itself), per-entry finalization under its own state and an isolation re-run",
+ "C05": ("exploration", "generic batch issuance over the wire: every request-kind sequence of length 1..3/1..4 over 8 kinds under 5 issuer configurations (two with an always-refusing issuer sharing type and truncated key id) under 8 issuer configurations (also none, the same issuer twice, issuers that return bytes with their error), plus every unserved truncated key id, seeded long and large (63..128) batches, over the wire and handed over in memory, one batch in four carrying a request twice, judged by an executable model (present iff a configured issuer of that type and truncated key id evaluates the request itself), per-entry finalization under its own state and an isolation re-run",
          "trusted: circl, crypto/rsa; truncated-key-id collisions excluded by construction",
          "runtime monitoring: executable-model oracle over enumerated batch compositions"),
- "C06": ("exploration", "attester VerifyRequest on honest requests (pat-go client and harness-built), exhaustive single-bit flips of every field, forged/foreign/degenerate signatures, tampering after Marshal on decoded objects and after the original was accepted by the same attester, wrong/shifted blinds, malformed keys, each case also presented to one long-lived attester with all arguments in buffers refilled in place; accept iff crypto/ecdsa.Verify and reference key blinding agree; recording cache + state snapshots show a rejected request changes nothing",
+ "C06": ("exploration", "attester VerifyRequest on honest requests (pat-go client and harness-built), exhaustive single-bit flips of every field, forged/foreign/degenerate signatures, tampering after Marshal on decoded objects and after the original was accepted by the same attester, wrong/shifted blinds, malformed keys, each case also presented to one long-lived attester with all arguments in buffers refilled in place, an attester whose cache keeps nothing, request structures with a field beyond the 16-bit limit (never accepted); accept iff crypto/ecdsa.Verify and reference key blinding agree; recording cache + state snapshots show a rejected request changes nothing",
          "trusted: crypto/ecdsa, crypto/elliptic, the reference hash_to_field (internal/ref); verif-tagged VerifSnapshot hook",
          "runtime monitoring: independent accept/reject oracle + state-snapshot invariant at the cache hook"),
- "C07": ("exploration", "issuer Evaluate(bytes) on requests built by pat-go's client and entirely by the harness (own encoder, HPKE sealing, key-blinded signer): honest ones must be served and finalize to a valid token; exhaustive bit flips, truncations, missing signature, near-miss origins, foreign name keys, re-signing, request-key swap (AAD binding), AAD variants, truncated inner requests, and origins whose registration failed under an injected entropy fault must be refused with no response; one receive buffer refilled in place and scribbled over after each call",
+ "C07": ("exploration", "issuer Evaluate(bytes) on requests built by pat-go's client and entirely by the harness (own encoder, HPKE sealing, key-blinded signer): honest ones must be served and finalize to a valid token; exhaustive bit flips, truncations, missing signature, near-miss origins, foreign name keys, re-signing, request-key swap (AAD binding), AAD variants, truncated inner requests, and origins whose registration failed under an injected entropy fault must be refused with no response; every one- and two-byte tail; honest requests whose signature is constructed (nonce search) to end in CR LF / LF / NUL / blank must be served; asking the accessors about an unregistered name registers nothing; one receive buffer refilled in place and scribbled over after each call",
          "acceptance is fixed by construction (the HPKE private key is not observable); trusted: go-hpke, circl blindrsa, crypto/ecdsa",
          "runtime monitoring: must-serve / must-reject corpus built by an independent request constructor"),
  "C08": ("exploration", "full rate-limited flows for 4 clients x 4 origins (two sharing an index key) x repeated requests with edge blinds, on fresh and on long-lived attesters, with retained IDs re-checked, an adversarial negated-key twin, index keys replaced on a long-lived issuer and one key object shared by two origins; every index equals the reference HKDF-SHA-384 over the reference-blinded client key, Evaluate's second value equals the reference-blinded request key, distinct pairs differ, shared keys coincide",
          "trusted: crypto/elliptic, crypto/hmac, SHA-2; reference XMD/HKDF in internal/ref",
          "runtime monitoring: reference-model oracle over repeated protocol runs"),
- "C09": ("exploration", "every attester call history of length <= 4 / <= 5 over 14 operations (2 clients x 2 issuer IDs x 2 anonymous IDs; honest, bad-signature and foreign-request verify), every history of length <= 5 / <= 6 over 7 operations including finalization under never-verified client key bytes (uncompressed encoding of a verified client's point), the same with all client keys in one buffer refilled in place, long anonymous ids and their digests as other ids, one 1100/4200-binding history of one client, plus seeded 200-step histories, replayed against an executable model with the binding map compared after every step through the snapshot hook",
+ "C09": ("exploration", "every attester call history of length <= 4 / <= 5 over 14 operations (2 clients x 2 issuer IDs x 2 anonymous IDs; honest, bad-signature and foreign-request verify), every history of length <= 5 / <= 6 over 7 operations including finalization under never-verified client key bytes (uncompressed encoding of a verified client's point), the same with all client keys in one buffer refilled in place, long anonymous ids and their digests as other ids, one 1100/4200-binding history of one client, every history of length 4 / 5 of a client whose anonymous ids are the bytes (and the hex spelling) of its own issuer ids, plus seeded 200-step histories, replayed against an executable model with the binding map compared after every step through the snapshot hook",
          "histories are sequential; verif-tagged VerifSnapshot hook",
          "runtime monitoring: online trace checker against an executable model (exhaustive short histories)"),
  "C10": ("exploration", "issuer Verify of types 1 and 5 on honest tokens, exhaustive single-bit flips of every field, truncated/extended authenticators, every token against every other key and type, recomputed authenticators for changed types and shifted field boundaries, hostile field lengths, authenticators from related derivations under the same key (base OPRF mode, POPRF, input prefixes), all tokens read out of four buffers refilled in place, completed runs after the caller reused its key object; accept iff authenticator == circl FullEvaluate over the fields as carried",
@@ -50,13 +50,13 @@ CHECKS = {
  "C15": ("exploration", "Ed25519 key blinding over seeds x blinds (incl. all-zero/all-ones, pool pairs) x contexts x messages: blinded key equals SHA-512-derived scalar times A in the math/big model, deterministic signatures verify under crypto/ed25519 and the fork and not under the original key, unblind inverts, blindings commute, blind/context separation; histories of 14 consecutive calls (also with nothing between two blinding calls) with key, blind and context buffers refilled in place; contexts up to 1 MiB; (blind, context) pairs with rare blinding factors (divisible by 2^32, below 2^224: fixture found by search); public keys with extreme encodings; blind equal to the key bytes",
          "trusted: crypto/ed25519, crypto/sha512, the math/big Edwards model",
          "runtime monitoring: reference-model and algebraic-law oracle"),
- "C16": ("exploration", "every exported operation with byte-slice arguments called with each argument in its own canary arena (spare capacity 0/1/7/64, three fills): arenas unchanged, deterministic results independent of the fill; all ordered pairs and triples (quadruples for reused request objects and in the thorough tier) and seeded longer sequences of operations per object type, including the caller writing into a token it was given, (client states, issuers, batch issuer, reused request objects) with every earlier handed-out value re-checked after each call",
+ "C16": ("exploration", "every exported operation with byte-slice arguments called with each argument in its own canary arena (spare capacity 0/1/7/64, three fills): arenas unchanged, deterministic results independent of the fill; all ordered pairs and triples (quadruples for reused request objects and in the thorough tier) and seeded longer sequences of operations per object type, including the caller writing into a token it was given, (also error values, and the identity of the objects in a request list the caller handed to the batch client) (client states, issuers, batch issuer, reused request objects) with every earlier handed-out value re-checked after each call",
          "quicwire.Append* may write into destination spare capacity by contract; decoders may alias their input",
          "runtime monitoring: canary/snapshot monitors on argument arenas and on previously returned values"),
- "C17": ("exploration", "race-detector build: fresh issuer/key objects used by 16/32 goroutines from a barrier with per-goroutine arguments, all read operations mixed (keys on several curves at once, dense signing bursts, unknown key ids in batches, first use of package-level tables inside the goroutines, an authentic request and tampered copies of it in flight together, two Ed25519 keys at once with blinded signatures re-made sequentially, every tenth repetition with 96 goroutines), repeated per kind with kinds rotated over worker processes; zero race reports (de-duplicated by outermost pat-go frames) and per-call sequential-result oracles",
+ "C17": ("exploration", "race-detector build: fresh issuer/key objects used by 16/32 goroutines from a barrier with per-goroutine arguments, all read operations mixed (keys on several curves at once, dense signing bursts, unknown key ids in batches, first use of package-level tables inside the goroutines, an authentic request and tampered copies of it in flight together, two Ed25519 keys at once with blinded signatures re-made sequentially, key blinding on curves without a suite, every tenth repetition with 96 goroutines), repeated per kind with kinds rotated over worker processes; zero race reports (de-duplicated by outermost pat-go frames) and per-call sequential-result oracles",
          "only schedules that ran are judged; the monitor's own oracle code shares no mutable objects between goroutines",
          "runtime monitoring: Go race detector + per-call result oracles under concurrent stress"),
- "C18": ("exploration", "RSA token-key DER for fixtures and synthetic (N,E) over every modulus byte length 1..300 and selected larger ones against a byte-by-byte reference and the Rust pkS; both forms inverted by UnmarshalTokenKey, legacy form parsed by crypto/x509; key ids of all issuer types equal SHA-256 of the reference serialization, requests carry byte 31, type-3 requests carry SHA-256 of the reference EncapKey encoding; related keys in sequence (same modulus with other exponents, coinciding hex(N)||hex(E), keys decoded from accepted non-prescribed encodings must encode to the prescribed DER, name keys decoded with trailing bytes, a modulus containing the PEM armour of another key, key ids for moduli of 2033..2056 bits)",
+ "C18": ("exploration", "RSA token-key DER for fixtures and synthetic (N,E) over every modulus byte length 1..300 and selected larger ones against a byte-by-byte reference and the Rust pkS; both forms inverted by UnmarshalTokenKey, legacy form parsed by crypto/x509; key ids of all issuer types equal SHA-256 of the reference serialization, requests carry byte 31, type-3 requests carry SHA-256 of the reference EncapKey encoding; related keys in sequence (same modulus with other exponents, coinciding hex(N)||hex(E), keys decoded from accepted non-prescribed encodings must encode to the prescribed DER, name keys decoded with trailing bytes, a modulus containing the PEM armour of another key, key ids for moduli of 2033..2056 bits, moduli with chosen leading octets (ff ff, ff 80, 80 00, ...) and moduli containing the OIDs / AlgorithmIdentifiers a decoder looks for)",
          "trusted: crypto/x509, go-hpke key derivation, the DER reference in internal/ref",
          "runtime monitoring: reference-encoder differential oracle"),
  "C19": ("exploration", "every value below 2^22 (quick) / 2^30 (thorough), boundary and seeded 62-bit values through AppendVarint/SizeVarint/ConsumeVarint; every byte string of length <= 2 and every (first byte, length) pair through the decoder; declared-length x remaining matrix up to 2^62-1 in all varint forms; strings of 2^20..2^26 (2^30 thorough) bytes; against an arithmetic RFC 9000 reference",
